@@ -41,7 +41,9 @@ type c07Case struct {
 // genPool draws types chosen to share scratch state: map types with by-value struct
 // values, same required ids, holders, wrappers that nest a fresh type.
 func genPool(t *rapid.T) []*core.StructSpec {
-	cfg := core.GenCfg{Holder: true, MaxFields: 5, MaxNest: 1, MaxBytes: 1024, ContainerMax: 5, NamedRefs: namedRefs(), RequiredBias: 25}
+	// Twins: fields of one Go type whose schemas differ in one node, possibly several container levels
+	// down - whichever is built first must not decide for the other
+	cfg := core.GenCfg{Holder: true, MaxFields: 5, MaxNest: 1, MaxBytes: 1024, ContainerMax: 5, NamedRefs: namedRefs(), RequiredBias: 25, Twins: true}
 	base := core.GenStruct(t, core.GenCfg{MaxFields: 4, MaxNest: 1, Holder: true, RequiredBias: 30, NoZeroSizeStruct: true})
 	if len(base.Fields) == 0 {
 		base.Fields = append(base.Fields, &core.FieldSpec{Name: "B_1", ID: 1, Type: &core.TypeSpec{Kind: core.KI32}})
@@ -60,7 +62,7 @@ func genPool(t *rapid.T) []*core.StructSpec {
 	// low required id, non-required field in a higher presence-set word that R/Q require
 	pool = append(pool, &core.StructSpec{Fields: []*core.FieldSpec{{Name: "P_1", ID: 1, Req: core.Required, Type: i32},
 		{Name: "P_64", ID: 64, Req: core.Optional, Type: str}, {Name: "P_255", ID: 255, Type: i32}}})
-	for i := rapid.IntRange(0, 3).Draw(t, "nextra"); i > 0; i-- {
+	for i := rapid.IntRange(1, 4).Draw(t, "nextra"); i > 0; i-- {
 		pool = append(pool, core.GenStruct(t, cfg))
 	}
 	for _, n := range []string{"MutA", "MutB", "MutC", "ValOut", "DefNest", "ReqNest", "RecH"} {
